@@ -114,4 +114,33 @@ example (C : Crypto) (s : Core × Disk) (op : Op) (t : Nat) (h : ∀ off bs, (jo
 
 end Model
 
+/-! ### proof applications on a replica -/
+
+/-- **the entry write is the commit point of a proof application (partial: data and entry writes).**  For every replica
+    state that satisfies the invariants (every state of `C02.replica_survives_crashes`) and every honest act: if the
+    write of the block's bytes, or the write of the oplog entry, is torn after any number of bytes, `Hypercore::new`
+    succeeds and shows the replica exactly as it was before the application, with the invariants re-established — a
+    strict prefix of a frame is no frame (no checksum assumption), and the bytes of a block that is not yet recorded as
+    held are not observable.  Torn writes *inside the periodic flush* of a replica (pages, nodes, header) are covered by
+    the runs only. -/
+theorem replica_torn_commit_point_partial (C : Crypto) (hC : TreeStore.HashWF C) (hT : TreeStore.TreeWF C) (bs : Array Bytes) (m : Nat) (c : Core) (d : Disk)
+    (held : Nat → Bool) (h : ReplicaReopen.RP C bs m c d held) (hm0 : 0 < m) (a : HashReq.Act)
+    (hok : HashReq.OkActs C bs c.publicKey c.tree.fork m [a]) :
+    ∃ (e : Oplog.Entry) (j0 : List SOp), (∃ j2, (c.verifyAndApply C d (HashReq.actProof C bs c d a)).journal = (j0 ++ (Oplog.appendEntry c.oplog e).2) ++ j2)
+      ∧ (∀ op ∈ j0, ∃ off bytes, op = SOp.write .data off bytes ∧ ∀ t, ∃ c' j, Core.openCore C none (d.apply (SOp.write .data off (bytes.take t))) = .ok (c', j)
+          ∧ C02.Shows bs m held c' ((d.apply (SOp.write .data off (bytes.take t))).applyAll j)
+          ∧ ReplicaReopen.RP C bs m c' ((d.apply (SOp.write .data off (bytes.take t))).applyAll j) held)
+      ∧ (∀ t, t < (Oplog.frame (Oplog.encEntry e) c.oplog.currentBit false).length →
+          let dt := (d.applyAll j0).apply (SOp.write .oplog (Spec.entriesOffset + c.oplog.entriesByteLength) ((Oplog.frame (Oplog.encEntry e) c.oplog.currentBit false).take t))
+          ∃ c' j, Core.openCore C none dt = .ok (c', j) ∧ C02.Shows bs m held c' (dt.applyAll j) ∧ ReplicaReopen.RP C bs m c' (dt.applyAll j) held) := by
+  obtain ⟨c1, e, j0, hk⟩ := ReplicaCrash.act_ok C hC hT bs m c d held h hm0 a hok
+  obtain ⟨t1, t2⟩ := ReplicaCrash.torn_ok C bs m _ c c1 d held _ _ e j0 h hk
+  refine ⟨e, j0, ⟨_, hk.shape.2⟩, fun op hop => ?_, fun t ht => ?_⟩
+  · obtain ⟨off, bytes, hop', hdur⟩ := t1 op hop
+    refine ⟨off, bytes, hop', fun t => ?_⟩
+    obtain ⟨c', j, r1, r2, _, _⟩ := ReplicaCrash.durR_open C bs m held _ _ _ (hdur t)
+    exact ⟨c', j, r1, C02.shows_of_rp C bs m c' _ held r2, r2⟩
+  · obtain ⟨c', j, r1, r2, _, _⟩ := ReplicaCrash.durR_open C bs m held _ _ _ (t2 t ht)
+    exact ⟨c', j, r1, C02.shows_of_rp C bs m c' _ held r2, r2⟩
+
 end HC.C07
